@@ -35,7 +35,9 @@ Definition bcd_time (t : bytes) : json :=
   end.
 
 (* environment: registry names for component ids *)
-Record spec_env := { se_comp_name : text -> text -> option text }.
+(* environment: registry names for component ids, and what the message registry says about an SRC (hex words, 32-character
+   reference code): the 'Error Details' entry, if a message is defined for the reason code (specified by the C03 registry theorems) *)
+Record spec_env := { se_comp_name : text -> text -> option text; se_error_details : list N -> text -> list (text * json)%type }.
 
 (* component ids: PHYP's are two ASCII characters (when both bytes are non-zero); others through the registry *)
 Definition creator_subsystem (creator : N) : option text := assoc_t PublishedTables.creatorIDs [creator].
@@ -160,7 +162,7 @@ Definition doc_src (se : spec_env) (sp : spec_plugins) (plugins_on : bool) (crea
   (if bmc then [(L "Backplane CCIN", str (hex_fixed hexdigU 4 (w 1%nat / 65536)));
                 (L "Terminate FW Error", truefalse (bit (w 3%nat) 536870912))] else []) ++
   (if bmc || hb then [(L "Deconfigured", truefalse (bit (w 3%nat) 33554432));
-                      (L "Guarded", truefalse (bit (w 3%nat) 16777216))] else []) ++
+                      (L "Guarded", truefalse (bit (w 3%nat) 16777216))] ++ se_error_details se (s_words s) (s_ascii s) else []) ++
   [(L "Valid Word Count", hex0x 2 (s_wcount s));
    (L "Reference Code", str (strip_ws (s_ascii s)))] ++
   hex_words 2 shown ++
@@ -238,4 +240,23 @@ Definition doc_of (se : spec_env) (sp : spec_plugins) (plugins_on : bool) (p : p
   | Some docs => Some ((L "Private Header", JObj (doc_ph se (p_ph p))) :: (L "User Header", JObj (doc_uh se creator (p_uh p)))
                        :: combine names docs)
   | None => None
+  end.
+
+(* ---- C03: the registry message is filled with the referenced hex words ---- *)
+(* "SRCWordN" refers to hex word N (N = 2..9), i.e. the (N-2)th of the eight stored words *)
+Definition referenced_word (ws : list N) (n : N) : N := nth (N.to_nat (n - 2)) ws 0.
+Definition hex_of (v : N) : text := L "0x" ++ hexL 1 v.              (* as Python's hex() *)
+
+(* %k in the message stands for the word referenced by the k-th argument source *)
+Fixpoint fill_by_number (msg : text) (vals : list text) : text :=
+  match msg with
+  | [] => []
+  | c :: t =>
+      if c =? 37 then
+        match t with
+        | d :: t' => if (49 <=? d) && (d <=? 57) then nth (N.to_nat (d - 49)) vals [] ++ fill_by_number t' vals
+                     else c :: fill_by_number t vals
+        | [] => [c]
+        end
+      else c :: fill_by_number t vals
   end.
